@@ -96,6 +96,10 @@ class App:
                     start_response(c["status"], hdrs, sys.exc_info())
             else:
                 start_response(c["status"], hdrs)
+            if c.get("after_output") is not None:
+                # the error-handler shape of a second call: the first chunk (empty ones included - the server sends the head with
+                # it) has been handed over, then start_response(..., exc_info) offers another status and other headers
+                return self._after_output(start_response, bytes.fromhex(c["after_output"]))
             if c.get("late"):
                 # the application goes on using the list it handed over: what it adds now was never offered to start_response
                 hdrs.append((c["late"][0], c["late"][1]))
@@ -103,6 +107,24 @@ class App:
             self.exc = type(e).__name__
             raise
         return [b"body-Zq"]
+
+
+def _after_output_gen(app, start_response, first):
+    yield first
+    try:
+        raise KeyError("after output")
+    except KeyError:
+        import sys
+        try:
+            start_response("500 After Output", [("X-After-Output", "afterZq")], sys.exc_info())
+        except Exception as e:      # noqa: BLE001 - refused (the exc_info re-raised): propagate like a real app would
+            app.exc = type(e).__name__
+            raise
+    app.second_call_accepted = True
+    yield b"tail-Zq"
+
+
+App._after_output = lambda self, sr, first: _after_output_gen(self, sr, first)
 
 
 def expected_lines(case, version):
@@ -144,6 +166,14 @@ def judge(case, out, app):
     if case.get("late") and b"lateZq" in data:
         v.append(("header-added-after-start-response-on-wire", "the application appended %r to its list after start_response() had "
                   "returned; the client received: %s" % (case["late"], hexs(data[:300]))))
+    if getattr(app, "second_call_accepted", False):
+        # an accepted call's status and headers are the response's: they have to be what the head on the wire says
+        head = data[:data.find(b"\r\n\r\n") + 2] if b"\r\n\r\n" in data else data
+        if not (head.startswith(b"HTTP/%s 500 After Output\r\n" % version.encode()) and b"\r\nX-After-Output: afterZq\r\n" in head):
+            v.append(("second-start-response-accepted-after-head-was-sent", "start_response(..., exc_info) after the first chunk %r "
+                      "returned normally, but the head the client received is the first call's: %s" % (
+                          bytes.fromhex(case["after_output"]), hexs(data[:300]))))
+            return v, "broken"
     if out["handler_exc"]:
         v.append(("exception-escaped-handler", out["handler_exc"]))
     if out["hung"]:
@@ -456,6 +486,9 @@ def random_case(rng):
     if rng.random() < 0.12:
         c["late"] = rng.choice([["X-Late", "v\r\nSet-Cookie: lateZq=1"], ["X-Late\r\nX-lateZq", "1"], ["X-Late", "lateZq\0"],
                                 ["Transfer-Encoding", "lateZq"], ["X-Late", "lateZq"]])
+    if not c["catch"] and rng.random() < 0.1:
+        c["after_output"] = rng.choice([b"", b"", b"x", b"first-Zq"]).hex()
+        c.pop("late", None)
     if c["catch"]:
         c["retry"] = False
     if c["status"].startswith("204"):
@@ -479,6 +512,7 @@ def random_case(rng):
         c["retry"] = c["catch"] = False
         c["types"] = None
         c.pop("late", None)
+        c.pop("after_output", None)
     return c
 
 
@@ -493,6 +527,8 @@ def run_case(run, e2, harnesses, case):
     out = h.connection(req, app)
     verdicts, outcome = judge(case, out, app)
     run.count("outcome/" + outcome)
+    if case.get("after_output") is not None and app.exc and b"\r\n\r\n" in out["received"]:
+        run.count("second_call_after_output_refused")
     exp = expected_lines(case, case["version"])[0]
     run.count("expected/" + exp)
     if exp == "refuse" and outcome in ("refused-500", "nothing-sent"):
@@ -559,7 +595,7 @@ def shard(sh):
 
 def main(tier, seed):
     run = Run(PROP, tier, seed, "exploration", RULE)
-    run.require("must_refuse_refused", "accepted_head_exact", "expected/either", "outcome/refused-500",
+    run.require("must_refuse_refused", "second_call_after_output_refused", "accepted_head_exact", "expected/either", "outcome/refused-500",
                 "tolerance_switch_cases/strip", "tolerance_switch_cases/lenient", "name_with_trailing_blank_refused_under_strip_header_spaces",
                 "interim_sequences", "interim_sequences_must_refuse", "interim_must_refuse_refused")
     q = tier == "quick"
